@@ -1,6 +1,7 @@
 package interp
 
 import (
+	"golang.org/x/tools/go/ssa"
 	"go/types"
 	"fmt"
 	"math"
@@ -271,4 +272,98 @@ func term2lt(a, b value) string {
 		return "false"
 	}
 	return "(< " + term(a) + " " + term(b) + ")"
+}
+
+// externGlobal serves the few package-level variables of non-interpreted
+// packages that code may reasonably refer to (sentinel errors).
+func externGlobal(i *interpreter, g *ssa.Global) *value {
+	name := g.String()
+	switch name {
+	case "strconv.ErrSyntax", "strconv.ErrRange", "io.EOF", "io.ErrUnexpectedEOF":
+		if c, ok := i.globals[g]; ok {
+			return c
+		}
+		v := mkErr(name)
+		i.globals[g] = &v
+		return &v
+	}
+	return nil
+}
+
+// stringify renders a value the way fmt's %v/%s would for the cases that
+// matter: it CALLS the String/Error method of the dynamic type (methods may
+// have side effects in the code under test).
+func stringify(fr *frame, x value) interface{} {
+	it, ok := x.(iface)
+	if !ok {
+		return toString(x)
+	}
+	if it.t == nil {
+		return "<nil>"
+	}
+	if nf := errorMethod(it.t); nf != nil {
+		return conc(nf([]value{it.v}))
+	}
+	for _, meth := range []string{"Error", "String"} {
+		if types.NewMethodSet(it.t).Lookup(nil, meth) == nil {
+			continue
+		}
+		if f := fr.i.prog.LookupMethod(it.t, nil, meth); f != nil && f.Signature.Params().Len() == 0 && f.Signature.Results().Len() == 1 &&
+			(intrinsics[f.String()] != nil || (f.Blocks != nil && fr.i.interpreted(f))) {
+			r := call(fr.i, fr, 0, f, []value{it.v})
+			if s, ok := r.(string); ok {
+				return s
+			}
+			return "<fmt:symbolic>"
+		}
+	}
+	switch v := it.v.(type) {
+	case string, int, bool, int64, uint, float64, int32, uint8:
+		return v
+	case *Sym, *SymStr:
+		return "<fmt:symbolic>"
+	}
+	return toString(it.v)
+}
+
+func init() {
+	sprint := func(sep string, nl bool) intrinsic {
+		return func(fr *frame, a []value) value {
+			var sb strings.Builder
+			for i, x := range a[0].([]value) {
+				if i > 0 {
+					sb.WriteString(sep)
+				}
+				sb.WriteString(fmt.Sprint(stringify(fr, x)))
+			}
+			if nl {
+				sb.WriteString("\n")
+			}
+			return sb.String()
+		}
+	}
+	intrinsics["fmt.Sprint"] = sprint("", false)
+	intrinsics["fmt.Sprintln"] = sprint(" ", true)
+	intrinsics["fmt.Sprintf"] = func(fr *frame, a []value) value {
+		args := a[1].([]value)
+		out := make([]interface{}, len(args))
+		for i, x := range args {
+			out[i] = stringify(fr, x)
+		}
+		return fmt.Sprintf(conc(a[0]), out...)
+	}
+	// logging is an empty sink, but the arguments are rendered (String methods run)
+	logSink := func(fr *frame, a []value) value {
+		if len(a) > 1 {
+			if args, ok := a[len(a)-1].([]value); ok {
+				for _, x := range args {
+					stringify(fr, x)
+				}
+			}
+		}
+		return nil
+	}
+	for _, n := range []string{"Println", "Print", "Info", "Infoln", "Debug", "Debugln", "Warn", "Warnln"} {
+		intrinsics["(*github.com/sirupsen/logrus.Logger)."+n] = logSink
+	}
 }
